@@ -256,7 +256,7 @@ impl DiagFamily {
             typed.push(p.to_owned());
         }
         typed.extend(value_first_programs());
-        if let Ok(rd) = std::fs::read_dir(format!("{}/examples", crate::infra::REPO_DIR)) {
+        if let Ok(rd) = std::fs::read_dir(format!("{}/examples", crate::infra::repo_dir())) {
             let mut paths: Vec<_> = rd.filter_map(|e| e.ok()).map(|e| e.path()).collect();
             paths.sort();
             for path in paths {
@@ -415,7 +415,7 @@ fn multi_diagnostic_programs() -> Vec<String> {
 
 fn launch_sweep(tier: Tier) -> Sweep {
     let mut files: Vec<(String, Vec<u8>)> = vec![];
-    if let Ok(rd) = std::fs::read_dir(format!("{}/examples", crate::infra::REPO_DIR)) {
+    if let Ok(rd) = std::fs::read_dir(format!("{}/examples", crate::infra::repo_dir())) {
         let mut paths: Vec<_> = rd.filter_map(|e| e.ok()).map(|e| e.path()).collect();
         paths.sort();
         for p in paths {
